@@ -18,7 +18,7 @@ import (
 	"verif/internal/runner"
 )
 
-var scratch, cli string
+var scratch, cli, raceCLI string
 
 func libInject(path string) (err error, pan bool, msg, site string) {
 	pan, msg, site = runner.Guard(func() {
@@ -36,7 +36,20 @@ func checkFile(c *runner.Ctx, src []byte, desc string, annotated int, viaCLI str
 	dir := filepath.Join(scratch, fmt.Sprintf("w%d", c.Worker))
 	os.MkdirAll(dir, 0755)
 	path := filepath.Join(dir, "x.pb.go")
-	os.WriteFile(path, src, 0644)
+	os.Remove(path)
+	if strings.HasPrefix(viaCLI, "link") {
+		// the generated file is reached through a symbolic link with a short target name (api.pb.go -> gen/v1.go)
+		os.MkdirAll(filepath.Join(dir, "gen"), 0755)
+		os.WriteFile(filepath.Join(dir, "gen", "v1.go"), src, 0644)
+		os.Symlink(filepath.Join("gen", "v1.go"), path)
+		viaCLI = strings.TrimPrefix(strings.TrimPrefix(viaCLI, "link"), "-")
+		if viaCLI != "" {
+			viaCLI = "-" + viaCLI
+		}
+		defer os.Remove(path)
+	} else {
+		os.WriteFile(path, src, 0644)
+	}
 	det := func() map[string]interface{} {
 		return map[string]interface{}{"file": string(src), "via": viaCLI, "what": desc}
 	}
@@ -109,13 +122,28 @@ func checkMulti(c *runner.Ctx, src []byte, desc, mode string) {
 	if mode == "-p" {
 		args = []string{"-p", filepath.Join(dir, "*.pb.go")}
 	}
-	cmd := exec.Command(cli, args...)
+	bin := cli
+	every := int64(16)
+	if c.Thorough() {
+		every = 8
+	}
+	if raceCLI != "" && c.Index()%every == 3 {
+		bin = raceCLI // the tool built with the race detector: files of one run may be handled by several goroutines
+	}
+	cmd := exec.Command(bin, args...)
+	cmd.Env = append(os.Environ(), "GOMAXPROCS=4", "GORACE=halt_on_error=0 exitcode=0 atexit_sleep_ms=0")
 	var out bytes.Buffer
 	cmd.Stderr, cmd.Stdout = &out, &out
 	err := cmd.Run()
 	c.AddTransitions(1)
 	det := func() map[string]interface{} {
 		return map[string]interface{}{"file": string(src), "via": mode + " over 3 copies", "what": desc}
+	}
+	if strings.Contains(out.String(), "WARNING: DATA RACE") {
+		d := det()
+		d["race_report"] = tail(out.String())
+		c.Violation("data-race-in-the-tool/"+mode+"/multi", d)
+		return
 	}
 	if err != nil || strings.Contains(out.String(), "panic:") || strings.Contains(out.String(), "goroutine ") || strings.Contains(out.String(), "fatal error") {
 		d := det()
@@ -145,6 +173,7 @@ func tail(s string) string {
 func run(c *runner.Ctx) {
 	scratch = os.Getenv("VERIF_SCRATCH")
 	cli = os.Getenv("VERIF_CLI")
+	raceCLI = os.Getenv("VERIF_CLI_RACE")
 	menu := inject.FieldMenu()
 	header := "// Code generated by protoc-gen-go. 不要编辑 — 测试文件 ✓\n// source: 用户.proto"
 	emb := inject.Fillers[5]
@@ -178,6 +207,12 @@ func run(c *runner.Ctx) {
 					via = "-f"
 				}
 				checkFile(c, long, desc+" [90 KB line and a bodyless func first]", annotated, via)
+			}
+			if idx%16 == 7 {
+				checkFile(c, src, desc+" [through a symbolic link]", annotated, "link")
+				if cli != "" {
+					checkFile(c, src, desc+" [through a symbolic link]", annotated, "link-f")
+				}
 			}
 			// a fixed 1/8 slice (by index) also goes through the built CLI in all three modes
 			if cli != "" && idx%8 == 3 {
@@ -290,7 +325,17 @@ func pre(tier string) ([]string, error) {
 	if out, err := cmd.CombinedOutput(); err != nil {
 		return nil, fmt.Errorf("building the CLI from /repo: %v\n%s", err, out)
 	}
-	return []string{"VERIF_CLI=" + bin}, nil
+	env := []string{"VERIF_CLI=" + bin}
+	rbin := bin + ".race"
+	rcmd := exec.Command("go", "build", "-race", "-o", rbin, ".")
+	rcmd.Dir = runner.RepoDir
+	rcmd.Env = append(os.Environ(), "GOFLAGS=-mod=mod", "GOPROXY=off", "GOSUMDB=off", "GOTOOLCHAIN=local", "CGO_ENABLED=1")
+	if out, err := rcmd.CombinedOutput(); err == nil {
+		env = append(env, "VERIF_CLI_RACE="+rbin)
+	} else {
+		fmt.Fprintf(os.Stderr, "note: race build of the CLI failed (multi-file runs use the plain build): %v %s\n", err, out)
+	}
+	return env, nil
 }
 
 func main() {
